@@ -6,7 +6,7 @@
      transform_attributions                             -> transform  (eq_step / del_step / ins_step)
      find_attribution_for_insertion                     -> find_attr_ins
      ranges_intersect, data_is_whitespace               -> ranges_intersect, data_is_ws
-     merge_attributions                                 -> merge  (sort4, dedup, coalesce)
+     merge_attributions                                 -> merge  (sort2, dedup, coalesce)
      update_attributions (phases 4-5 on given facts)    -> update
      LineBoundaries::new / get_line_range               -> line_ranges, get_line
      floor_char_boundary / ceil_char_boundary           -> floor_cb, ceil_cb
@@ -29,8 +29,8 @@
 
    Abstractions, and why they are faithful:
    * usize / u128 are unbounded N.  Every sum the code forms is bounded by |old| + |new| under
-     the contracts, so the debug-build overflow panic is unreachable; the one subtraction that can
-     underflow (`attr.end - attr.start` in find_attribution_for_insertion) is an explicit Panic.
+     the contracts, so the debug-build overflow panic is unreachable; the length comparison of
+     find_attribution_for_insertion uses saturating_sub, which is the truncated subtraction of N.
      `insertions[mapping.insertion_idx]` out of bounds is an explicit Panic.  Slicing a str off a
      char boundary / out of range is an explicit Panic (str_slice).
    * The HashMaps of transform_attributions are only read by key (and each value vector sorted),
@@ -152,28 +152,9 @@ Definition inter (a : attr) (s e : N) : option (N * N) :=
   let oe := N.min (a_end a) e in
   if os <? oe then Some (os, oe) else None.
 
-(* lexicographic String::cmp *)
-Fixpoint str_cmp (a b : list N) : comparison :=
-  match a, b with
-  | [], [] => Eq
-  | [], _ :: _ => Lt
-  | _ :: _, [] => Gt
-  | x :: a', y :: b' => match N.compare x y with Eq => str_cmp a' b' | c => c end
-  end.
-
-(* compare_attribution_order = the comparator of merge_attributions *)
-Definition cmp4 (a b : attr) : comparison :=
-  match N.compare (a_start a) (a_start b) with
-  | Eq => match N.compare (a_end a) (a_end b) with
-          | Eq => match str_cmp (a_author a) (a_author b) with
-                  | Eq => N.compare (a_ts a) (a_ts b)
-                  | c => c
-                  end
-          | c => c
-          end
-  | c => c
-  end.
-Definition le4 (a b : attr) : bool := match cmp4 a b with Gt => false | _ => true end.
+(* compare_attribution_order: by position only, (start, end) *)
+Definition le2 (a b : attr) : bool :=
+  (a_start a <? a_start b) || ((a_start a =? a_start b) && (a_end a <=? a_end b)).
 
 (* stable insertion sort (slice::sort_by is stable) *)
 Fixpoint insert_by {A} (le : A -> A -> bool) (x : A) (l : list A) : list A :=
@@ -184,13 +165,14 @@ Fixpoint insert_by {A} (le : A -> A -> bool) (x : A) (l : list A) : list A :=
 Fixpoint sort_by {A} (le : A -> A -> bool) (l : list A) : list A :=
   match l with [] => [] | x :: t => insert_by le x (sort_by le t) end.
 
-Definition sort4 (l : list attr) : list attr := sort_by le4 l.
+(* sort_by(compare_attribution_order): stable, so entries covering the same range keep their order *)
+Definition sort2 (l : list attr) : list attr := sort_by le2 l.
 
 Definition attr_eqb (a b : attr) : bool :=
   (a_start a =? a_start b) && (a_end a =? a_end b) && str_eqb (a_author a) (a_author b)
   && (a_ts a =? a_ts b).
 
-(* Vec::dedup *)
+(* Vec::dedup: of exact duplicates that sit next to each other the first is kept *)
 Fixpoint dedup (l : list attr) : list attr :=
   match l with
   | [] => []
@@ -212,7 +194,7 @@ Fixpoint coalesce (last : attr) (l : list attr) : list attr :=
   end.
 
 Definition merge (l : list attr) : list attr :=
-  match dedup (sort4 l) with [] => [] | a :: t => coalesce a t end.
+  match dedup (sort2 l) with [] => [] | a :: t => coalesce a t end.
 
 (* ------------------------------------------------------------------ the diff facts *)
 Inductive dop := DEq | DDel | DIns.
@@ -277,41 +259,34 @@ Fixpoint split_cursor (l : list attr) (p : N) (before : option attr) : option at
   | a :: t => if a_end a <=? p then split_cursor t p (Some a) else (before, l)
   end.
 
-Fixpoint best_overlap (l : list attr) (p : N) (best : option attr) : res (option attr) :=
+Fixpoint best_overlap (l : list attr) (p : N) (best : option attr) : option attr :=
   match l with
-  | [] => Ok best
+  | [] => best
   | a :: t =>
-      if p <? a_start a then Ok best
+      if p <? a_start a then best
       else
-        let better : res bool :=
+        let better : bool :=
           match best with
-          | None => Ok true
+          | None => true
           | Some b =>
-              if a_ts b <? a_ts a then Ok true
-              else if a_ts a =? a_ts b then
-                if (a_end a <? a_start a) || (a_end b <? a_start b) then Panic   (* usize underflow *)
-                else Ok (a_end b - a_start b <? a_end a - a_start a)
-              else Ok false
+              (a_ts b <? a_ts a)
+              || ((a_ts a =? a_ts b) && (a_end b - a_start b <? a_end a - a_start a))   (* saturating_sub *)
           end in
-        match better with
-        | Panic => Panic
-        | Ok bt => best_overlap t p (if overlaps a p (p + 1) && bt then Some a else best)
-        end
+        best_overlap t p (if overlaps a p (p + 1) && better then Some a else best)
   end.
 
-Definition find_attr_ins (l : list attr) (p : N) : res (option attr) :=
+Definition find_attr_ins (l : list attr) (p : N) : option attr :=
   match l with
-  | [] => Ok None
+  | [] => None
   | _ =>
     let (before, rest) := split_cursor l p None in
     match best_overlap rest p None with
-    | Panic => Panic
-    | Ok (Some b) => Ok (Some b)
-    | Ok None =>
-        Ok (match before with
-            | Some b => Some b
-            | None => find (fun a => p <=? a_start a) rest
-            end)
+    | Some b => Some b
+    | None =>
+        match before with
+        | Some b => Some b
+        | None => find (fun a => p <=? a_start a) rest
+        end
     end
   end.
 
@@ -319,13 +294,18 @@ Definition find_attr_ins (l : list attr) (p : N) : res (option attr) :=
 Fixpoint last_opt {A} (l : list A) (d : option A) : option A :=
   match l with [] => d | x :: t => last_opt t (Some x) end.
 
-(* Equal branch: every prior intersecting [old_pos, old_pos+len) shifted to new_pos *)
+(* Equal branch: every prior intersecting [old_pos, old_pos+len) shifted to new_pos; a zero-length
+   prior (deletion marker) lying in [old_pos, old_pos+len) moves along *)
 Definition eq_step (attrs : list attr) (old_pos new_pos len : N) : list attr :=
   flat_map (fun a => match inter a old_pos (old_pos + len) with
                      | Some (os, oe) =>
                          [mkAttr (new_pos + (os - old_pos)) (new_pos + (os - old_pos) + (oe - os))
                                  (a_author a) (a_ts a)]
-                     | None => []
+                     | None =>
+                         if (a_start a =? a_end a) && (old_pos <=? a_start a) && (a_start a <? old_pos + len)
+                         then [mkAttr (new_pos + (a_start a - old_pos)) (new_pos + (a_start a - old_pos))
+                                      (a_author a) (a_ts a)]
+                         else []
                      end) attrs.
 
 (* Delete branch, one mapping *)
@@ -337,10 +317,11 @@ Definition move_step (attrs : list attr) (ins : list (N * N)) (old_pos : N) (m :
       let se := old_pos + m_s1 m in
       if ss <? se then
         let ts0 := istart + m_t0 m in
+        let te := istart + m_t1 m in
         Ok (flat_map (fun a => match inter a ss se with
                                | Some (os, oe) =>
-                                   let ns := ts0 + (os - ss) in
-                                   let ne := ns + (oe - os) in
+                                   let ns := N.min (ts0 + (os - ss)) te in     (* clamped to the target range *)
+                                   let ne := N.min (ns + (oe - os)) te in
                                    if ns <? ne then [mkAttr ns ne (a_author a) (a_ts a)] else []
                                | None => []
                                end) attrs)
@@ -397,10 +378,10 @@ Definition opt_or {A} (a b : option A) : option A := match a with Some _ => a | 
 
 Definition ins_step (attrs : list attr) (ms : list mv) (subst : list (N * N)) (author : list N) (ts : N)
            (old_pos new_pos ins_idx : N) (prev_ws_del : bool) (last : option attr) (data : list N)
-  : res (list attr) :=
+  : list attr :=
   let len := blen data in
   match ranges_for_ins ms ins_idx with
-  | (_ :: _) as rs => Ok (gaps author ts new_pos len 0 (merged_targets rs))
+  | (_ :: _) as rs => gaps author ts new_pos len 0 (merged_targets rs)
   | [] =>
     let cur := mkAttr new_pos (new_pos + len) author ts in
     let with_author (o : option attr) :=
@@ -408,19 +389,13 @@ Definition ins_step (attrs : list attr) (ms : list mv) (subst : list (N * N)) (a
       | Some a => mkAttr new_pos (new_pos + len) (a_author a) (a_ts a)
       | None => cur
       end in
-    if mem 10 data then Ok [cur]                                  (* contains_newline *)
-    else if ranges_intersect subst new_pos (new_pos + len) then Ok [cur]   (* substantive *)
+    if mem 10 data then [cur]                                  (* contains_newline *)
+    else if ranges_intersect subst new_pos (new_pos + len) then [cur]   (* substantive *)
     else if prev_ws_del && data_is_ws data then                   (* formatting pair *)
-      match find_attr_ins attrs old_pos with
-      | Panic => Panic
-      | Ok f => Ok [with_author (opt_or f last)]
-      end
+      [with_author (opt_or (find_attr_ins attrs old_pos) last)]
     else match last with
-         | Some a => Ok [with_author (Some a)]
-         | None => match find_attr_ins attrs old_pos with
-                   | Panic => Panic
-                   | Ok f => Ok [with_author f]
-                   end
+         | Some a => [with_author (Some a)]
+         | None => [with_author (find_attr_ins attrs old_pos)]
          end
   end.
 
@@ -452,14 +427,11 @@ Fixpoint transform_go (segs : list seg) (attrs : list attr) (ins : list (N * N))
               end
           end
       | DIns =>
-          match ins_step attrs ms subst author ts old_pos new_pos ins_idx prev_ws_del last d with
+          let outs := ins_step attrs ms subst author ts old_pos new_pos ins_idx prev_ws_del last d in
+          match transform_go t attrs ins ms subst author ts old_pos (new_pos + len)
+                             del_idx (ins_idx + 1) false (last_opt outs last) with
           | Panic => Panic
-          | Ok outs =>
-              match transform_go t attrs ins ms subst author ts old_pos (new_pos + len)
-                                 del_idx (ins_idx + 1) false (last_opt outs last) with
-              | Panic => Panic
-              | Ok r => Ok (outs ++ r)
-              end
+          | Ok r => Ok (outs ++ r)
           end
       end
   end.
@@ -470,7 +442,7 @@ Definition transform (f : facts) (attrs : list attr) (author : list N) (ts : N) 
 
 (* update_attributions, phases 4 and 5, on the facts of phases 1-3 *)
 Definition update (attrs : list attr) (author : list N) (ts : N) (f : facts) : res (list attr) :=
-  match transform f (sort4 attrs) author ts with
+  match transform f (sort2 attrs) author ts with
   | Panic => Panic
   | Ok l => Ok (merge l)
   end.
@@ -518,17 +490,17 @@ Definition moves_ok (f : facts) : bool :=
     | _, _ => false
     end) (f_moves f).
 
-(* the moved source text fits into the insertion at the target offset (what boundedness needs) *)
+(* every mapping names an existing insertion and its target range ends inside it (what boundedness
+   and totality need: mapped ranges are clamped to the target range) *)
 Definition moves_fit (f : facts) : bool :=
   let inss := insertions (f_segs f) 0 in
   forallb (fun m =>
     match range_len (nth_error inss (N.to_nat (m_ins m))) with
-    | Some il => (m_s1 m <=? m_s0 m) || (m_t0 m + (m_s1 m - m_s0 m) <=? il)
+    | Some il => m_t1 m <=? il
     | None => false
     end) (f_moves f).
 
-(* source and target of every mapping have the same length (detect_moves matches lines by TRIMMED
-   content, so this fails when a moved block is re-indented: known class C16-K1) *)
+(* source and target of every mapping have the same length *)
 Definition moves_same_len (f : facts) : bool :=
   forallb (fun m => m_s1 m - m_s0 m =? m_t1 m - m_t0 m) (f_moves f).
 
@@ -591,9 +563,7 @@ Definition to_chars (la : list lattr) (c : list N) (ts : N) : list attr :=
                        end) la
   end.
 
-(* sort_by_key(|idx| (start, end, idx)) = stable sort by (start, end) *)
-Definition le2 (a b : attr) : bool :=
-  (a_start a <? a_start b) || ((a_start a =? a_start b) && (a_end a <=? a_end b)).
+(* sort_by_key(|idx| (start, end, idx)) = stable sort by (start, end) = sort_by le2 *)
 
 (* has_non_whitespace of find_dominant_author_for_line_candidates *)
 Definition has_nonws (c : list N) (ls le : N) (a : attr) : res bool :=
